@@ -48,10 +48,13 @@ def then_form_r2(ctx, r2, rr, hop, ops_i):
         for name_, op_ in zip(st_["rv"].get("fields") or [], st_["rv"]["ops"]):
             if name_ == "to":
                 to_op_ = op_
-        defs_ = cb_.defs().get(to_op_["place"]["l"], []) if to_op_ and to_op_["k"] in ("copy", "move") and not to_op_["place"]["p"] else []
-        some_b = [b for (b, i, k) in defs_ if k == "full" and cb_.blocks[b]["stmts"][i]["rv"]["k"] == "agg" and cb_.blocks[b]["stmts"][i]["rv"].get("variant") == "Some"]
-        none_b = [b for (b, i, k) in defs_ if k == "full" and cb_.blocks[b]["stmts"][i]["rv"]["k"] == "agg" and cb_.blocks[b]["stmts"][i]["rv"].get("variant") == "None"]
-        if len(some_b) != 1 or len(none_b) != 1 or len(defs_) != 2:
+        if not (to_op_ and to_op_["k"] in ("copy", "move")):
+            return False
+        # follow plain moves back to the local that is assigned Some(..) on one branch and None on the other
+        alts_ = P.alts_with_sites(cf, (hb, hi), to_op_["place"])
+        some_b = [s_[0] for s_, v_ in alts_ if s_ != "entry" and v_[0] == "agg" and str(v_[2]).endswith("Option::Some")]
+        none_b = [s_[0] for s_, v_ in alts_ if s_ != "entry" and v_[0] == "agg" and str(v_[2]).endswith("Option::None")]
+        if len(some_b) != 1 or len(none_b) != 1 or len(alts_) != 2:
             return False
         for g_ in common.bool_guards(P, cf):
             if cb_.edge_dominates(g_.edge(True), some_b[0]) and cb_.edge_dominates(g_.edge(False), none_b[0]):
@@ -390,10 +393,12 @@ def _run(ctx):
     for g in common.bool_guards(P, acc):
         c = g.cond
         if c[0] == "cmp" and c[1] in ("eq", "ne") and len(c[2]) == 2:
-            rs = [set(ctx.roots(x)) for x in c[2]]
-            lens = [x for x in common.walk(c[2][0]) if x[0] == "call"] + [x for x in common.walk(c[2][1]) if x[0] == "call"]
-            lens = [x for x in lens if isinstance(x[3], str) and (generic_path(x[3]).endswith("Vec::len") or common.last_seg(x[3]) == "len")]
-            if {"K:0"} in rs and lens and set(ctx.roots(lens[0][4][0])) == {P_(acc, ops_i)}:
+            def is_len_(x):
+                while x[0] == "cast":
+                    x = x[2]
+                return x[0] == "call" and isinstance(x[3], str) and common.last_seg(x[3]) == "len" and set(ctx.roots(x[4][0])) == {P_(acc, ops_i)}
+            a_, b_ = c[2]
+            if (is_len_(a_) and b_ == ("const", "int", 0)) or (is_len_(b_) and a_ == ("const", "int", 0)):
                 empties.append((g, c[1] == "eq"))
         elif c[0] == "cmp" and c[1] == "is_empty" and set(ctx.roots(c[2][0])) == {P_(acc, ops_i)}:
             empties.append((g, True))
@@ -557,3 +562,56 @@ def run(ctx):
     from . import c12
     r7 = ctx.inst("C13.R7", "quote == execution per hop: the pair prices a swap on the same reserves, amount and rate its simulation uses, and the router's simulation folds the per-hop quotes in route order (shared with C12.R1, C12.R3, C12.R6)", floor=6)
     compose.pull(ctx, r7, c12, {"C12.R1", "C12.R3", "C12.R6"}, "C13.R7")
+    # the router's own quotes reject an empty route as execution does (a quote for a route that cannot be executed is no quote)
+    r8 = ctx.inst("C13.R8", "both router simulations reject an empty route before folding (as the acceptor does)", floor=2)
+    P = ctx.P
+    for variant in ("SimulateSwapOperations", "ReverseSimulateSwapOperations"):
+        try:
+            rq = roles.entry(P, "router", "query")
+            d = common.dispatch(P, rq, ctx.N.query_enum("router"))
+            region = common.region_of_edge(rq.body, d[variant])
+            hs = [(b, P.fn(p) or P.fn(generic_path(p))) for b, p, fr, t in P.calls(rq) if b in region and roles.is_workspace_fn(P, p)]
+            if len(hs) != 1:
+                raise AnchorMissing("router query arm %s calls %d workspace functions" % (variant, len(hs)))
+            fold = hs[0][1]
+        except (AnchorMissing, KeyError, TypeError) as e:
+            r8.fail("C13.R8:anchor:%s" % variant, "-", "-", "anchor-missing: %s" % e)
+            continue
+        ops_i = common.param_index_of_type(fold, r"^std::vec::Vec<%s>$" % ctx.N.rx("SwapOperation"))
+        if ops_i is None:
+            r8.fail("C13.R8:anchor:%s" % variant, fold.path, fold.span, "anchor-missing: Vec<SwapOperation> parameter")
+            continue
+        OPS = P_(fold, ops_i)
+        found = None
+        for g in common.bool_guards(P, fold):
+            c = g.cond
+            when_true = None
+            def is_len(x):
+                while x[0] == "cast":
+                    x = x[2]
+                return x[0] == "call" and isinstance(x[3], str) and common.last_seg(x[3]) == "len" and set(ctx.roots(x[4][0])) == {OPS}
+            if c[0] == "cmp" and c[1] in ("eq", "ne") and len(c[2]) == 2:
+                a_, b_ = c[2]
+                if (is_len(a_) and b_ == ("const", "int", 0)) or (is_len(b_) and a_ == ("const", "int", 0)):
+                    when_true = (c[1] == "eq")
+            elif c[0] == "cmp" and c[1] == "is_empty" and set(ctx.roots(c[2][0])) == {OPS}:
+                when_true = True
+            elif c[0] == "cmp" and c[1] == "is_zero" and len(c[2]) == 1 and is_len(c[2][0]):
+                when_true = True
+            if when_true is None:
+                continue
+            fe, pe = g.edge(when_true), g.edge(not when_true)
+            if common.fail_edge_only_errors(P, fold, fe)[0] and all(fold.body.edge_dominates(pe, b) for (b, i, cls, v) in common.ok_exit_blocks(P, fold)):
+                found = g
+        if found is None:
+            # `let Some(last) = operations.last() else { return Err }` / `split_last()`: an empty route has no last element
+            for (b, i, cls, v) in common.ok_exit_blocks(P, fold):
+                for c in common.control_conditions(P, fold, b):
+                    cd = c["cond"]
+                    if cd[0] == "discr" and c["allowed"] == ["Some"] and cd[1][0] == "call" and isinstance(cd[1][3], str) and \
+                            re.search(r"(last|first|split_last|split_first)$", cd[1][3]) and set(ctx.roots(cd[1][4][0])) == {OPS}:
+                        found = c
+        if found is None:
+            r8.fail("C13.R8:no-empty-guard:%s" % variant, fold.path, fold.span, "%s answers a quote for an empty route (execution rejects it)" % fold.path)
+        else:
+            r8.site("%s: empty route => Err before any success exit" % fold.path)
